@@ -14,7 +14,7 @@ from vcheck.oracle import bits, names, reader
 PROPERTY = "C06"
 LEVEL = "exploration"
 BUDGET_S = {"quick": 50, "thorough": 700}
-FLOOR = {"quick": 4000, "thorough": 40000}
+FLOOR = {"quick": 2000, "thorough": 40000}
 MUST_REACH = ("native_fixpoints_judged", "foreign_convergence_judged", "config_level_judged", "structures_compared")
 RULE = ("objects of every exported class from the supported grammars: ports (5 operators, names/numbers), protocols (all "
         "names, 0..255), options (flag/log tokens), wildcards, addresses and address-group members in every spelling, IOS "
